@@ -8,6 +8,7 @@ CONSTANTS
   Prots <- AllProts
   FixDelete = TRUE
   FixPatch = TRUE
+  CacheTrunc = TRUE
 INVARIANT TypeOK
 INVARIANT Confined
 INVARIANT UnsafeRefused
